@@ -356,6 +356,7 @@ func (rm *ResponseManager) taskDataForKey(requestID graphsync.RequestID) queryex
 		Traverser:      response.traverser,
 		Signals:        response.signals,
 		ResponseStream: response.responseStream,
+		PanicCallback:  rm.panicCallback,
 	}
 }
 
